@@ -112,7 +112,7 @@ def run_check(prop, tier, seed, workers=None, only_shard=None):
                 continue
             seen.add(sig)
             path = REPLAY / f"{prop}_{tier}_s{seed}_{i}.json"
-            path.write_text(json.dumps({"property": prop, "tier": tier, "seed": seed, **v}, indent=1))
+            path.write_text(json.dumps({"property": prop, "tier": tier, "seed": seed, "verif_commit": _verif_commit(), **v}, indent=1))
             lines.append(f"VIOLATION property={prop} replay={path}  oracle={v['oracle']} detail={json.dumps(v['detail'])[:300]}")
     elif agg["inconclusive"]:
         exit_code = EXIT_INCONCLUSIVE
@@ -188,9 +188,19 @@ def write_evidence(mod, prop, tier, seed, agg, wall, exit_code):
     (EVIDENCE / f"{prop}.json").write_text(json.dumps(ev, indent=1))
 
 
+def _verif_commit():
+    try:
+        return subprocess.check_output(["git", "-C", str(VERIF), "rev-parse", "--short", "HEAD"], text=True, stderr=subprocess.DEVNULL).strip()
+    except Exception:
+        return None
+
+
 def replay(path):
     """re-run the single case a replay file describes"""
     data = json.loads(Path(path).read_text())
+    if data.get("verif_commit") and data["verif_commit"] != _verif_commit():
+        print(f"note: this replay file was written at /verif commit {data['verif_commit']}; generators may have changed since "
+              f"(current {_verif_commit()}): the case description inside the file is authoritative")
     prop = data["property"]
     spec = dict(data["spec"] or {})
     case = data.get("case") or {}
